@@ -813,10 +813,10 @@ class Fingerprint(object):
         return self.__and__(other)
 
     def __ror__(self, other):
-        return self.__ror__(other)
+        return self.__or__(other)
 
     def __rxor__(self, other):
-        return self.__rxor__(other)
+        return self.__xor__(other)
 
     def __iadd__(self, other):
         return self.__add__(other)
@@ -828,10 +828,10 @@ class Fingerprint(object):
         return self.__and__(other)
 
     def __ior__(self, other):
-        return self.__ror__(other)
+        return self.__or__(other)
 
     def __ixor__(self, other):
-        return self.__rxor__(other)
+        return self.__xor__(other)
 
     # iterable magic methods
     def __len__(self):
